@@ -14,12 +14,17 @@ From Coq Require Import ZArith List Bool Lia.
 Import ListNotations.
 Open Scope Z_scope.
 
-(* ------------------------------------------------------------------ cache facade *)
-Definition ents := list (Z * Z).
+(* ------------------------------------------------------------------ values *)
+(* what the callbacks return and the caches hold: an integer or Go's nil (a callback may answer (nil, nil), e.g. a load
+   that reports a missing row without an error; the handlers cache that nil like any other value) *)
+Notation val := (option Z) (only parsing).
 
-Fixpoint lookup (k : Z) (l : ents) : option Z :=
+(* ------------------------------------------------------------------ cache facade *)
+Definition ents := list (Z * val).
+
+Fixpoint lookup {A} (k : Z) (l : list (Z * A)) : option A :=
   match l with [] => None | (k', v) :: r => if k' =? k then Some v else lookup k r end.
-Fixpoint remove (k : Z) (l : ents) : ents :=
+Fixpoint remove {A} (k : Z) (l : list (Z * A)) : list (Z * A) :=
   match l with [] => [] | (k', v) :: r => if k' =? k then remove k r else (k', v) :: remove k r end.
 
 Record cache := mkCache { c_ents : ents; c_cap : option nat }.
@@ -27,30 +32,36 @@ Record cache := mkCache { c_ents : ents; c_cap : option nat }.
 Definition trim (c : option nat) (l : ents) : ents := match c with None => l | Some n => firstn n l end.
 
 (* Peek: no change of order *)
-Definition c_peek (c : cache) (k : Z) : option Z := lookup k (c_ents c).
+Definition c_peek (c : cache) (k : Z) : option val := lookup k (c_ents c).
 (* Get: a hit moves the entry to the front *)
-Definition c_get (c : cache) (k : Z) : cache * option Z :=
+Definition c_get (c : cache) (k : Z) : cache * option val :=
   match lookup k (c_ents c) with
   | Some v => (mkCache ((k, v) :: remove k (c_ents c)) (c_cap c), Some v)
   | None => (c, None)
   end.
 (* Set: update in place or add, move to front, then evict from the back while over capacity *)
-Definition c_set (c : cache) (k v : Z) : cache := mkCache (trim (c_cap c) ((k, v) :: remove k (c_ents c))) (c_cap c).
+Definition c_set (c : cache) (k : Z) (v : val) : cache := mkCache (trim (c_cap c) ((k, v) :: remove k (c_ents c))) (c_cap c).
 Definition c_del (c : cache) (k : Z) : cache := mkCache (remove k (c_ents c)) (c_cap c).
 Definition c_empty (cap : option nat) : cache := mkCache [] cap.
 
 (* ------------------------------------------------------------------ the store behind the callbacks *)
-Definition fmap := Z -> option Z.
+(* what the store holds for a key: a value, or nil when there is no row (Go's m[k] of a missing key) *)
+Definition fmap := Z -> val.
 Definition upd (m : fmap) (k : Z) (v : option Z) : fmap := fun x => if x =? k then v else m x.
 Definition updz (m : Z -> Z) (k : Z) (v : Z) : Z -> Z := fun x => if x =? k then v else m x.
 
 Record store := mkStore { smap : fmap; sver : Z -> Z }.
 
-Inductive fault := FOk | FErr | FNF.                 (* injected: none / an error / an error that reads as "not found" *)
-Inductive err := EInj | ENotFound | EExists | EMissing | EDupKey | EClosed | EFull.
-Inductive sres := SOk (v : Z) | SErr (e : err).      (* answer of a value-returning callback *)
+(* scripted behaviour of one callback: normal / an error / an error that reads as "not found" / "nil, no error":
+   a load of a missing row answers (nil, nil); an add stores nothing, an update / upsert leaves no row, and answer nil *)
+Inductive fault := FOk | FErr | FNF | FNil.
+Inductive err := EInj | ENotFound | EExists | EMissing | EDupKey | EClosed | EFull | ECtx.
+Inductive sres := SOk (v : val) | SErr (e : err).    (* answer of a value-returning callback *)
 
-Definition ferr (f : fault) : option err := match f with FOk => None | FErr => Some EInj | FNF => Some ENotFound end.
+Definition ferr (f : fault) : option err :=
+  match f with FOk | FNil => None | FErr => Some EInj | FNF => Some ENotFound end.
+Definition is_fnil (f : fault) : bool := match f with FNil => true | _ => false end.
+Definition s_unrow (s : store) (k : Z) : store := mkStore (upd (smap s) k None) (sver s).
 
 (* the value a successful write of datum d under key k stores and returns *)
 Definition newval (s : store) (k d : Z) : Z := 100 * (sver s k + 1) + d.
@@ -58,17 +69,24 @@ Definition s_write (s : store) (k v : Z) : store := mkStore (upd (smap s) k (Som
 
 Definition s_load (s : store) (f : fault) (k : Z) : store * sres :=
   match ferr f with Some e => (s, SErr e) | None =>
-    match smap s k with Some v => (s, SOk v) | None => (s, SErr ENotFound) end end.
+    match smap s k with
+    | Some v => (s, SOk (Some v))
+    | None => if is_fnil f then (s, SOk None) else (s, SErr ENotFound) end end.
 Definition s_add (s : store) (f : fault) (k d : Z) : store * sres :=
   match ferr f with Some e => (s, SErr e) | None =>
-    match smap s k with Some _ => (s, SErr EExists) | None => let v := newval s k d in (s_write s k v, SOk v) end end.
+    match smap s k with
+    | Some _ => (s, SErr EExists)
+    | None => if is_fnil f then (s, SOk None) else let v := newval s k d in (s_write s k v, SOk (Some v)) end end.
 Definition s_upd (s : store) (f : fault) (k d : Z) : store * sres :=
   match ferr f with Some e => (s, SErr e) | None =>
-    match smap s k with None => (s, SErr EMissing) | Some _ => let v := newval s k d in (s_write s k v, SOk v) end end.
+    match smap s k with
+    | None => (s, SErr EMissing)
+    | Some _ => if is_fnil f then (s_unrow s k, SOk None) else let v := newval s k d in (s_write s k v, SOk (Some v)) end end.
 Definition s_upsert (s : store) (f : fault) (k d : Z) : store * sres :=
-  match ferr f with Some e => (s, SErr e) | None => let v := newval s k d in (s_write s k v, SOk v) end.
+  match ferr f with Some e => (s, SErr e) | None =>
+    if is_fnil f then (s_unrow s k, SOk None) else let v := newval s k d in (s_write s k v, SOk (Some v)) end.
 Definition s_delete (s : store) (f : fault) (k : Z) : store * option err :=
-  match ferr f with Some e => (s, Some e) | None => (mkStore (upd (smap s) k None) (sver s), None) end.
+  match ferr f with Some e => (s, Some e) | None => (s_unrow s k, None) end.
 
 (* ------------------------------------------------------------------ operations, results, events *)
 Inductive op := OGet (k : Z) | OAdd (k d : Z) | OUpdate (k d : Z) | ODelete (k : Z)
@@ -76,17 +94,18 @@ Inductive op := OGet (k : Z) | OAdd (k d : Z) | OUpdate (k d : Z) | ODelete (k :
 Definition key_of (o : op) : Z :=
   match o with OGet k | OAdd k _ | OUpdate k _ | ODelete k | OUpdOrAdd k _ | OUpsertLoad k _ | OUpsertRenew k _ => k end.
 
-Inductive res := ROk (v : Z) | RNil | RErr (e : err) | RPanic | RHang.
+(* what a caller gets: a value (possibly nil), the (nil, nil) of a successful delete, an error, a panic, no answer *)
+Inductive res := ROk (v : val) | RNil | RErr (e : err) | RPanic | RHang.
 
 Inductive event :=
-  | EvGet (k : Z) (r : option Z)             (* ca.Get *)
-  | EvPeek (k : Z) (r : option Z)            (* ca.Peek *)
-  | EvSet (k v : Z)                          (* ca.Set *)
+  | EvGet (k : Z) (r : option val)           (* ca.Get: miss, or hit with a value that may be nil *)
+  | EvPeek (k : Z) (r : option val)          (* ca.Peek *)
+  | EvSet (k : Z) (v : val)                  (* ca.Set *)
   | EvDel (k : Z)                            (* ca.Delete *)
   | EvLoad (k : Z) (r : sres)                (* loadFn *)
   | EvAdd (k d : Z) (r : sres)               (* addFn *)
-  | EvUpd (k d pre : Z) (r : sres)           (* updFn(data, existing) *)
-  | EvUpsert (k d : Z) (pre : option Z) (r : sres)   (* upsertFn(data, existing or nil) *)
+  | EvUpd (k d : Z) (pre : val) (r : sres)   (* updFn(data, existing) *)
+  | EvUpsert (k d : Z) (pre : val) (r : sres)        (* upsertFn(data, existing, or nil when nothing is cached) *)
   | EvDelete (k : Z) (r : option err).       (* deleteFn *)
 
 Definition ev_key (e : event) : Z :=
@@ -99,20 +118,20 @@ Definition no_store_ev (evs : list event) : bool := forallb (fun e => negb (is_s
 (* ------------------------------------------------------------------ handlers as programs *)
 Inductive prog :=
   | Done (r : res)
-  | PGet (k : Z) (c : option Z -> prog)
-  | PPeek (k : Z) (c : option Z -> prog)
-  | PSet (k v : Z) (c : prog)
+  | PGet (k : Z) (c : option val -> prog)
+  | PPeek (k : Z) (c : option val -> prog)
+  | PSet (k : Z) (v : val) (c : prog)
   | PDel (k : Z) (c : prog)
   | PLoad (k : Z) (c : sres -> prog)
   | PAdd (k d : Z) (c : sres -> prog)
-  | PUpd (k d pre : Z) (c : sres -> prog)
-  | PUpsert (k d : Z) (pre : option Z) (c : sres -> prog)
+  | PUpd (k d : Z) (pre : val) (c : sres -> prog)
+  | PUpsert (k d : Z) (pre : val) (c : sres -> prog)
   | PDelete (k : Z) (c : option err -> prog).
 
 (* "renew cache; set result" / "set error" : the common tail of the handlers *)
 Definition finish (k : Z) (r : sres) : prog :=
   match r with SOk v => PSet k v (Done (ROk v)) | SErr e => Done (RErr e) end.
-Definition fail_or (r : sres) (ok : Z -> prog) : prog :=
+Definition fail_or (r : sres) (ok : val -> prog) : prog :=
   match r with SOk v => ok v | SErr e => Done (RErr e) end.
 Definition is_nf (e : err) : bool := match e with ENotFound => true | _ => false end.
 
@@ -136,11 +155,11 @@ Definition handler (o : op) : prog :=
             | SOk v => PUpd k d v (finish k) end) end)
   | OUpsertLoad k d =>                                               (* handleMixUpsertThenLoad *)
       PPeek k (fun r => match r with
-        | Some pre => PUpsert k d (Some pre) (finish k)
+        | Some pre => PUpsert k d pre (finish k)
         | None => PUpsert k d None (fun u => fail_or u (fun _ => PLoad k (finish k))) end)
   | OUpsertRenew k d =>                                              (* handleMixUpsertThenRenewInCache *)
       PPeek k (fun r => match r with
-        | Some pre => PUpsert k d (Some pre) (finish k)
+        | Some pre => PUpsert k d pre (finish k)
         | None => PUpsert k d None (fun u => fail_or u (fun v => Done (ROk v))) end)
   end.
 
@@ -225,5 +244,5 @@ Definition do_op (c : gcfg) (g : grp) (o : op) (fs : list fault) : grp * list ev
   end.
 
 (* what the group holds for a key *)
-Definition cache_at (c : gcfg) (g : grp) (k : Z) : option Z := c_peek (wc (g (loc_of c k))) k.
-Definition store_at (c : gcfg) (g : grp) (k : Z) : option Z := smap (wsr (g (loc_of c k))) k.
+Definition cache_at (c : gcfg) (g : grp) (k : Z) : option val := c_peek (wc (g (loc_of c k))) k.
+Definition store_at (c : gcfg) (g : grp) (k : Z) : val := smap (wsr (g (loc_of c k))) k.
